@@ -14,7 +14,7 @@ theorem write_spec (c : WConn) (p : Bytes) :
   | nil => simp
   | cons e rest =>
     rcases e with ⟨acc, out⟩
-    cases out <;> simp [Nat.min_le_right]
+    cases out <;> simp <;> omega
 
 theorem writeToAux_spec (fuel : Nat) (c : WConn) (p : Bytes) :
     ∃ q, (writeToAux fuel c p).1.log = c.log ++ q ∧ q <+: p ∧ ((writeToAux fuel c p).2 = .ok → q = p) := by
